@@ -92,8 +92,8 @@ PROPS = {
     },
     "C05": {
         "suites": ["c05docs", "c05obj"],
-        "level": "proof", "extra_modules": [{"module": "GeoProofs.Props.LineBridge", "theorems": ["Geo.line_bridge_containsLine", "Geo.line_bridge_containsPoly"]}],
-        "translators": [{"name": "linewalk", "out": "LineGen.lean"}],
+        "level": "proof", "extra_modules": [{"module": "GeoProofs.Props.ParseBridge", "theorems": ["Geo.ParseBridge.parse_bridge", "Geo.ParseBridge.parse_bridge_nil"]}, {"module": "GeoProofs.Props.LineBridge", "theorems": ["Geo.line_bridge_containsLine", "Geo.line_bridge_containsPoly"]}],
+        "translators": [{"name": "parsers", "out": "ParseGen.lean"}, {"name": "linewalk", "out": "LineGen.lean"}],
         "proof_module": "GeoProofs.Props.C05", "theorems": ["Geo.parse_fuel_sufficient", "Geo.parseTop_total", "Geo.parseTop_unmodelled_only_string_radius", "Geo.parse_extraOK", "Geo.write_some_of_extraOK", "Geo.parse_then_write_no_panic"],
         "trivial_sigs": set(),
         "claim": "Proof on the model (Lean 4): Parse is total and its fuel is never exhausted, every parsed object has a complete extras table so the writers never index out of range, the repaired Line.ContainsLine walk terminates; all other model functions are structurally recursive. Tie: outcome correspondence (value/error/panic/timeout) under a watchdog on documents, mutations, arbitrary bytes and every method on all kind pairs. Stack depth and wall-clock are not modelled.",
@@ -115,7 +115,7 @@ PROPS = {
     },
     "C07": {
         "suites": ["c07"],
-        "level": "proof", "extra_modules": [{"module": "GeoProofs.Props.ParseBridgeFinding", "theorems": ["Geo.ParseBridgeFinding.model_rejects", "Geo.ParseBridgeFinding.generated_accepts"]}, {"module": "GeoProofs.Props.ParseBridge", "theorems": ["Geo.ParseBridge.parseJSONPoint_bridge", "Geo.ParseBridge.parseJSONLineString_bridge", "Geo.ParseBridge.parseJSONPointCoords_bridge", "Geo.ParseBridge.parseJSONLineStringCoords_bridge", "Geo.ParseBridge.parseBBoxAndExtras_bridge", "Geo.ParseBridge.toGeometryOpts_bridge"]}],
+        "level": "proof", "extra_modules": [{"module": "GeoProofs.Props.ParseBridgeFinding", "theorems": ["Geo.ParseBridgeFinding.model_rejects", "Geo.ParseBridgeFinding.generated_accepts"]}, {"module": "GeoProofs.Props.ParseBridge", "theorems": ["Geo.ParseBridge.kinds_bridge", "Geo.ParseBridge.parseJSONMultiPoint_bridge", "Geo.ParseBridge.parseJSONMultiLineString_bridge", "Geo.ParseBridge.parseJSONMultiPolygon_bridge", "Geo.ParseBridge.parseJSONFeature_bridge", "Geo.ParseBridge.polyFin_bridge", "Geo.ParseBridge.parseJSON_bridge", "Geo.ParseBridge.parse_bridge", "Geo.ParseBridge.parse_bridge_nil", "Geo.ParseBridge.parseJSONPolygonCoords_bridge", "Geo.ParseBridge.parseJSONPolygon_bridge", "Geo.ParseBridge.parseInitRectIndex_bridge", "Geo.ParseBridge.parseJSONGeometryCollection_bridge", "Geo.ParseBridge.parseJSONFeatureCollection_bridge", "Geo.ParseBridge.scan_bridge", "Geo.ParseBridge.defaultOptions_bridge", "Geo.ParseBridge.parseJSONPoint_bridge", "Geo.ParseBridge.parseJSONLineString_bridge", "Geo.ParseBridge.parseJSONPointCoords_bridge", "Geo.ParseBridge.parseJSONLineStringCoords_bridge", "Geo.ParseBridge.parseBBoxAndExtras_bridge", "Geo.ParseBridge.toGeometryOpts_bridge"]}],
         "translators": [{"name": "parsers", "out": "ParseGen.lean"}],
         "proof_module": "GeoProofs.Props.C07", "theorems": ["Geo.defect_rejected", "Geo.wf_accepted_partial", "Geo.wf_accepted_counterexample", "Geo.wf_decoded"],
         "trivial_sigs": set(),
@@ -133,8 +133,8 @@ PROPS = {
     },
     "C09": {
         "suites": ["c09"],
-        "level": "proof", "extra_modules": [{"module": "GeoProofs.Props.CollBridge", "theorems": ["Geo.CollBridge.forEach_bridge", "Geo.CollBridge.within_bridge", "Geo.CollBridge.contains_bridge", "Geo.CollBridge.intersects_bridge", "Geo.CollBridge.indexed_invisible", "Geo.CollBridge.model_solves", "Geo.CollBridge.solves_unique"]}],
-        "translators": [{"name": "collection", "out": "CollGen.lean"}],
+        "level": "proof", "extra_modules": [{"module": "GeoProofs.Props.ObjBridge", "theorems": ["Geo.ObjBridge.point_forEach", "Geo.ObjBridge.point_empty", "Geo.ObjBridge.point_valid", "Geo.ObjBridge.point_rect", "Geo.ObjBridge.point_spatial", "Geo.ObjBridge.point_center", "Geo.ObjBridge.point_base", "Geo.ObjBridge.point_within", "Geo.ObjBridge.point_contains", "Geo.ObjBridge.point_intersects", "Geo.ObjBridge.point_intersects_circle", "Geo.ObjBridge.point_withinRect", "Geo.ObjBridge.point_withinPoint", "Geo.ObjBridge.point_withinLine", "Geo.ObjBridge.point_withinPoly", "Geo.ObjBridge.point_intersectsPoint", "Geo.ObjBridge.point_intersectsRect", "Geo.ObjBridge.point_intersectsLine", "Geo.ObjBridge.point_intersectsPoly", "Geo.ObjBridge.point_numPoints", "Geo.ObjBridge.point_isSimple", "Geo.ObjBridge.point_members", "Geo.ObjBridge.point_distance", "Geo.ObjBridge.spoint_forEach", "Geo.ObjBridge.spoint_empty", "Geo.ObjBridge.spoint_valid", "Geo.ObjBridge.spoint_rect", "Geo.ObjBridge.spoint_spatial", "Geo.ObjBridge.spoint_center", "Geo.ObjBridge.spoint_base", "Geo.ObjBridge.spoint_within", "Geo.ObjBridge.spoint_contains", "Geo.ObjBridge.spoint_intersects", "Geo.ObjBridge.spoint_intersects_circle", "Geo.ObjBridge.spoint_withinRect", "Geo.ObjBridge.spoint_withinPoint", "Geo.ObjBridge.spoint_withinLine", "Geo.ObjBridge.spoint_withinPoly", "Geo.ObjBridge.spoint_intersectsPoint", "Geo.ObjBridge.spoint_intersectsRect", "Geo.ObjBridge.spoint_intersectsLine", "Geo.ObjBridge.spoint_intersectsPoly", "Geo.ObjBridge.spoint_numPoints", "Geo.ObjBridge.spoint_members", "Geo.ObjBridge.spoint_distance", "Geo.ObjBridge.line_forEach", "Geo.ObjBridge.line_empty", "Geo.ObjBridge.line_valid", "Geo.ObjBridge.line_rect", "Geo.ObjBridge.line_spatial", "Geo.ObjBridge.line_center", "Geo.ObjBridge.line_base", "Geo.ObjBridge.line_within", "Geo.ObjBridge.line_contains", "Geo.ObjBridge.line_intersects", "Geo.ObjBridge.line_withinRect", "Geo.ObjBridge.line_withinPoint", "Geo.ObjBridge.line_withinLine", "Geo.ObjBridge.line_withinPoly", "Geo.ObjBridge.line_intersectsPoint", "Geo.ObjBridge.line_intersectsRect", "Geo.ObjBridge.line_intersectsLine", "Geo.ObjBridge.line_intersectsPoly", "Geo.ObjBridge.line_numPoints", "Geo.ObjBridge.line_members", "Geo.ObjBridge.line_distance", "Geo.ObjBridge.poly_forEach", "Geo.ObjBridge.poly_empty", "Geo.ObjBridge.poly_valid", "Geo.ObjBridge.poly_rect", "Geo.ObjBridge.poly_spatial", "Geo.ObjBridge.poly_center", "Geo.ObjBridge.poly_base", "Geo.ObjBridge.poly_within", "Geo.ObjBridge.poly_contains", "Geo.ObjBridge.poly_intersects", "Geo.ObjBridge.poly_withinRect", "Geo.ObjBridge.poly_withinPoint", "Geo.ObjBridge.poly_withinLine", "Geo.ObjBridge.poly_withinPoly", "Geo.ObjBridge.poly_intersectsPoint", "Geo.ObjBridge.poly_intersectsRect", "Geo.ObjBridge.poly_intersectsLine", "Geo.ObjBridge.poly_intersectsPoly", "Geo.ObjBridge.poly_numPoints", "Geo.ObjBridge.poly_hasExtra", "Geo.ObjBridge.poly_members", "Geo.ObjBridge.poly_distance", "Geo.ObjBridge.rect_forEach", "Geo.ObjBridge.rect_empty", "Geo.ObjBridge.rect_valid", "Geo.ObjBridge.rect_rect", "Geo.ObjBridge.rect_spatial", "Geo.ObjBridge.rect_center", "Geo.ObjBridge.rect_base", "Geo.ObjBridge.rect_within", "Geo.ObjBridge.rect_contains", "Geo.ObjBridge.rect_intersects", "Geo.ObjBridge.rect_withinRect", "Geo.ObjBridge.rect_withinPoint", "Geo.ObjBridge.rect_withinLine", "Geo.ObjBridge.rect_withinPoly", "Geo.ObjBridge.rect_intersectsPoint", "Geo.ObjBridge.rect_intersectsRect", "Geo.ObjBridge.rect_intersectsLine", "Geo.ObjBridge.rect_intersectsPoly", "Geo.ObjBridge.rect_numPoints", "Geo.ObjBridge.rect_members", "Geo.ObjBridge.rect_distance", "Geo.ObjBridge.feature_forEach", "Geo.ObjBridge.feature_empty", "Geo.ObjBridge.feature_valid", "Geo.ObjBridge.feature_rect", "Geo.ObjBridge.feature_spatial", "Geo.ObjBridge.feature_center", "Geo.ObjBridge.feature_base", "Geo.ObjBridge.feature_within", "Geo.ObjBridge.feature_contains", "Geo.ObjBridge.feature_intersects", "Geo.ObjBridge.feature_withinRect", "Geo.ObjBridge.feature_withinPoint", "Geo.ObjBridge.feature_withinLine", "Geo.ObjBridge.feature_withinPoly", "Geo.ObjBridge.feature_intersectsPoint", "Geo.ObjBridge.feature_intersectsRect", "Geo.ObjBridge.feature_intersectsLine", "Geo.ObjBridge.feature_intersectsPoly", "Geo.ObjBridge.feature_numPoints", "Geo.ObjBridge.feature_members", "Geo.ObjBridge.feature_distance", "Geo.ObjBridge.circle_forEach", "Geo.ObjBridge.circle_empty", "Geo.ObjBridge.circle_numPoints", "Geo.ObjBridge.circle_center", "Geo.ObjBridge.circle_within", "Geo.ObjBridge.circle_members", "Geo.ObjBridge.circle_meters", "Geo.ObjBridge.circle_haversine", "Geo.ObjBridge.circle_getObject", "Geo.ObjBridge.circle_polygon", "Geo.ObjBridge.circle_viaObject", "Geo.ObjBridge.circle_containsPoint", "Geo.ObjBridge.circle_haversineTo", "Geo.ObjBridge.circle_contains_point", "Geo.ObjBridge.circle_contains_spoint", "Geo.ObjBridge.circle_contains_circle", "Geo.ObjBridge.circle_contains_coll", "Geo.ObjBridge.circle_contains_line", "Geo.ObjBridge.circle_contains_poly", "Geo.ObjBridge.circle_contains_rect", "Geo.ObjBridge.circle_contains_feature", "Geo.ObjBridge.circle_intersects_point", "Geo.ObjBridge.circle_intersects_spoint", "Geo.ObjBridge.circle_intersects_circle", "Geo.ObjBridge.circle_intersects_coll", "Geo.ObjBridge.circle_intersects_feature", "Geo.ObjBridge.circle_intersects_line", "Geo.ObjBridge.circle_intersects_poly", "Geo.ObjBridge.circle_intersects_rect", "Geo.ObjBridge.multiLineString_valid", "Geo.ObjBridge.multiPolygon_valid", "Geo.ObjBridge.wrapper_members", "Geo.ObjBridge.model_solves_all", "Geo.ObjBridge.collOf_obj", "Geo.ObjBridge.solves_all_forEach", "Geo.ObjBridge.solves_all_numPoints", "Geo.ObjBridge.solves_all_withinRect", "Geo.ObjBridge.solves_all_withinPoint", "Geo.ObjBridge.solves_all_withinLine", "Geo.ObjBridge.solves_all_withinPoly", "Geo.ObjBridge.solves_all_intersectsRect", "Geo.ObjBridge.solves_all_intersectsPoint", "Geo.ObjBridge.solves_all_intersectsLine", "Geo.ObjBridge.solves_all_intersectsPoly", "Geo.ObjBridge.solves_all_contains", "Geo.ObjBridge.solves_all_intersects", "Geo.ObjBridge.solves_all_unique", "Geo.ObjBridge.model_is_the_solution", "Geo.ObjBridge.solves_all_to_coll"]}, {"module": "GeoProofs.Props.CollBridge", "theorems": ["Geo.CollBridge.forEach_bridge", "Geo.CollBridge.within_bridge", "Geo.CollBridge.contains_bridge", "Geo.CollBridge.intersects_bridge", "Geo.CollBridge.indexed_invisible", "Geo.CollBridge.model_solves", "Geo.CollBridge.solves_unique"]}],
+        "translators": [{"name": "objmeth", "out": "ObjMethGen.lean"}, {"name": "collection", "out": "CollGen.lean"}],
         "proof_module": "GeoProofs.Props.C09All", "theorems": ["Geo.within_is_contains_swapped", "Geo.feature_transparent", "Geo.feature_center", "Geo.feature_argument_transparent_leaf", "Geo.feature_argument_not_transparent_counterexample", "Geo.simplepoint_as_point_receiver", "Geo.simplepoint_as_point_argument", "Geo.simplepoint_as_point", "Geo.contains_empty_false", "Geo.empty_iff_all_leaves_empty", "Geo.contains_empty_receiver_false", "Geo.intersects_empty_false", "Geo.intersects_empty_receiver_false", "Geo.intersects_empty_false_point", "Geo.contains_implies_rect_covers_partial", "Geo.contains_implies_intersects_partial", "Geo.intersects_implies_rects_meet_partial", "Geo.intersects_empty_false_partial", "Geo.intersects_iff_atoms", "Geo.feature_argument_transparent_intersects", "Geo.intersects_iff_atoms_rect", "Geo.intersects_symm_partial", "Geo.leaf_contains_rect_covers_point_rect", "Geo.leaf_intersects_rects_meet_point_rect", "Geo.leaf_intersects_symm_point_rect", "Geo.leaf_contains_intersects_point_rect", "Geo.leaf_contains_intersects_rect_counterexample", "Geo.pr_not_empty", "Geo.point_rect_contains_implies_rect_covers", "Geo.point_rect_intersects_implies_rects_meet", "Geo.point_rect_intersects_symm", "Geo.point_rect_contains_implies_intersects", "Geo.DispatchFacts.dispatch_table_pinned", "Geo.DispatchFacts.within_forwards_to_contains", "Geo.DispatchFacts.json_wrappers", "Geo.DispatchFacts.feature_forwards", "Geo.leaf_intersects_rects_meet", "Geo.intersects_implies_rects_meet", "Geo.leaf_rects_meet_rawseries_counterexample", "Geo.leaf_contains_rect_covers", "Geo.leaf_contains_rect_covers_line_line_counterexample", "Geo.contains_implies_rect_covers", "Geo.leaf_empty_intersects_false", "Geo.intersects_empty_false_all", "Geo.intersects_iff_atoms_all", "Geo.feature_argument_transparent_intersects_all", "Geo.leaf_intersects_symm", "Geo.intersects_symm_made", "Geo.intersects_symm_valid", "Geo.leaf_intersects_exact", "Geo.intersects_exact", "Geo.leaf_contains_intersects", "Geo.leaf_contains_intersects_shortcut_counterexample", "Geo.contains_implies_intersects_valid", "Geo.mkSeries_eq_plain", "Geo.leafWF_lineString", "Geo.leafWF_polygon", "Geo.leafSymOK_polygon", "Geo.leafOK_point", "Geo.leafOK_rect", "Geo.leafOK_lineString", "Geo.leafOK_polygon", "Geo.leaf_intersects_exact_indexed", "Geo.intersects_exact_indexed"],
         "translators": [{"name": "dispatch", "out": "Dispatch.lean"}],
         "trivial_sigs": set(),
